@@ -363,6 +363,12 @@ def explore(ctx):
             from ufo2ft.featureWriters import MarkFeatureWriter, GdefFeatureWriter, CursFeatureWriter
             wkw["featureWriters"] = [KernFeatureWriter2, MarkFeatureWriter, GdefFeatureWriter, CursFeatureWriter]
             case["kern_writer"] = "kernFeatureWriter2"
+            # (with variable features the argument is not handed on -- observation O26 -- and the default source's lib key
+            # selects the writers: stated both ways)
+            for sd_ in ds.sources:
+                sd_.font.lib["com.github.googlei18n.ufo2ft.featureWriters"] = [
+                    {"class": "KernFeatureWriter", "module": "ufo2ft.featureWriters.kernFeatureWriter2"},
+                    {"class": "MarkFeatureWriter"}, {"class": "GdefFeatureWriter"}, {"class": "CursFeatureWriter"}]
         try:
             if multi:
                 vfs = getattr(ufo2ft, fn)(ds, variableFeatures=vfeat, **wkw)
